@@ -6,6 +6,9 @@ use std::process::exit;
 mod gen;
 mod oracles;
 mod tables_gen;
+mod slpp;
+mod slpp_oracles;
+mod arrow_oracle;
 
 fn c15(args: &[String]) -> i32 {
 	// c15 <first|last> <id>...
@@ -165,6 +168,27 @@ fn c06(args: &[String]) -> i32 {
 	}
 }
 
+/// Half of each (version, ports, history) group, rotating through the gecko / end / metadata combinations from group
+/// to group; then every `stride`-th of what is left.
+fn thin(cases: &mut Vec<gen::Spec>, stride: usize) {
+	let (mut group, mut inner, mut key) = (0usize, 0usize, None);
+	cases.retain(|c| {
+		let k = Some((c.ver, c.players, c.hist));
+		if k != key {
+			group += key.is_some() as usize;
+			inner = 0;
+			key = k;
+		}
+		inner += 1;
+		(inner - 1) % 2 == group % 2
+	});
+	let mut n = 0;
+	cases.retain(|_| {
+		n += 1;
+		(n - 1) % stride == 0
+	});
+}
+
 fn is_case_id(s: &str) -> bool {
 	s.starts_with('v') && s.contains("/p=")
 }
@@ -186,6 +210,12 @@ fn synth(cmd: &str, args: &[String]) -> i32 {
 			_ => oracles::c06_case(s, p, None, t0),
 		}
 	};
+	// the whole sub-case label of a WITNESS line, for the oracles whose labels have several words
+	let only: Option<String> = if searching || args.len() < 2 { None } else { Some(args[1..].join(" ")) };
+	let c02 = |s: &gen::Spec, p: &Progress| -> Outcome { slpp_oracles::c02(s, p, only.as_deref()) };
+	let c18 = |s: &gen::Spec, p: &Progress| -> Outcome { slpp_oracles::c18(s, p, only.as_deref()) };
+	let c07s = |s: &gen::Spec, p: &Progress| -> Outcome { slpp_oracles::c07s(s, p, only.as_deref()) };
+	let c10s = |s: &gen::Spec, p: &Progress| -> Outcome { slpp_oracles::c10s(s, p, only.as_deref()) };
 	let c07 = |s: &gen::Spec, p: &Progress| -> Outcome { oracles::c07(s, p, if searching { None } else { a1.as_ref().and_then(|x| x.parse().ok()) }) };
 	let check: oracles::Check = match name {
 		"c03" => &oracles::c03,
@@ -198,29 +228,31 @@ fn synth(cmd: &str, args: &[String]) -> i32 {
 		"c06" => &c06,
 		"c08" => &oracles::c08,
 		"c11" => &oracles::c11,
+		"c02" => &c02,
+		"c18" => &c18,
+		"c07s" => &c07s,
+		"c10s" => &c10s,
+		"c14" => &arrow_oracle::c14,
 		_ => {
 			eprintln!("unknown clause {}", cmd);
 			return 3;
 		}
 	};
-	let label = |s: &gen::Spec, sub: usize| oracles::c06_label(s, sub);
-	let hang: Option<&(dyn Fn(&gen::Spec, usize) -> String + Sync)> = if name == "c06" { Some(&label) } else { None };
+	let hang: Option<&(dyn Fn(&gen::Spec, usize) -> String + Sync)> = match name {
+		"c06" => Some(&oracles::c06_label),
+		"c02" => Some(&slpp_oracles::c02_label),
+		"c18" => Some(&slpp_oracles::c18_label),
+		"c07s" => Some(&slpp_oracles::c07s_label),
+		"c10s" => Some(&slpp_oracles::c10s_label),
+		_ => None,
+	};
 	if searching {
 		let mut cases = gen::candidates();
-		if name == "c07" {
-			// every prefix of every file is too much for one run: half of each (version, ports, history) group,
-			// rotating through the gecko / end / metadata combinations from group to group
-			let (mut group, mut inner, mut key) = (0usize, 0usize, None);
-			cases.retain(|c| {
-				let k = Some((c.ver, c.players, c.hist));
-				if k != key {
-					group += key.is_some() as usize;
-					inner = 0;
-					key = k;
-				}
-				inner += 1;
-				(inner - 1) % 2 == group % 2
-			});
+		match name {
+			// every prefix of every file is too much for one run
+			"c07" => thin(&mut cases, 1),
+			"c07s" => thin(&mut cases, 1),
+			_ => {}
 		}
 		oracles::search(name, &cases, check, hang, t0)
 	} else {
@@ -246,6 +278,7 @@ fn main() {
 	}
 	let rc = match args[0].as_str() {
 		"c15" => c15(&args[1..]),
+		"slpp" => slpp::run(&args[1..]),
 		"c15-search" => c15_search(),
 		"c17" if !args.get(1).map_or(false, |a| is_case_id(a)) => c17(&args[1..]),
 		"c06" if !args.get(1).map_or(false, |a| is_case_id(a)) => c06(&args[1..]),
